@@ -62,3 +62,90 @@ Theorem C12_code_task_arguments : forall (V : Type) (vglobal : string -> V) (ora
                     Ev "method:apply_async" [pool; vglobal "admm.admm_optimize_theta"; args; kwargs]])%list.
 Proof. exact setup_returns. Qed.
 Print Assumptions C12_code_task_arguments.
+
+(* ---- the STATISTICS PHASE AS TRANSLATED in skeleton mode (Gen/G_cm_update_all.v; facts: Proofs/GenEquivPH.v): every cluster
+   0 .. K-1 is refreshed exactly once, in order, by update_cluster_member_data_statistics(cluster k of the copy, THE training data
+   of the call, the biased flag of the given model's arguments) and stored back at its own index k ---- *)
+From Ticc Require Import Gen.PySkel Gen.G_cm_update_all Proofs.GenEquivPH.
+Section SkelPH12.
+  Local Open Scope string_scope.
+  Variable V : Type.
+  Variable vnone : V.
+  Variable vint : Z -> V.
+  Variable as_int : V -> option Z.
+  Variable veq : V -> V -> bool.
+  Variable getattr : V -> string -> V.
+  Variable truthy : V -> bool.
+  Variable is_none : V -> bool.
+  Variables vtrue vfalse : V.
+  Variable as_list : V -> list V.
+  Variable vglobal : string -> V.
+  Variable oracle : list (event V) -> string -> list V -> res V.
+  Let last_state := GenEquivPH.last_state V.
+  Let member_events := GenEquivPH.member_events V getattr.
+  Let refresh_events := GenEquivPH.refresh_events V vint getattr.
+  Let refresh_answers := GenEquivPH.refresh_answers V vint getattr oracle.
+  Theorem C12_code_statistics_phase (model data r : V) (log log' : list (event V)) (K : Z) :
+    as_int (getattr (getattr model "arguments") "num_clusters") = Some K ->
+    g_update_all_cluster_statistics V vint as_int getattr as_list oracle model data log = (Ret r, log') ->
+    exists members en gs u0 ans,
+      let pre := (log ++ [Ev f_members [getattr (getattr model "arguments") "num_clusters"];
+                          Ev "enumerate" [getattr model "point_labels"]]
+                      ++ member_events members (as_list en) gs)%list in
+      length gs = length (as_list en) /\
+      length ans = Z.to_nat K /\
+      log' = (pre ++ [Ev "method:shallow_copy" [model]] ++ refresh_events model data 0 u0 ans)%list /\
+      oracle log f_members [getattr (getattr model "arguments") "num_clusters"] = Ret members /\
+      oracle (log ++ [Ev f_members [getattr (getattr model "arguments") "num_clusters"]])%list
+             "enumerate" [getattr model "point_labels"] = Ret en /\
+      oracle pre "method:shallow_copy" [model] = Ret u0 /\
+      refresh_answers model data (pre ++ [Ev "method:shallow_copy" [model]])%list 0 u0 ans /\
+      r = last_state u0 ans.
+  Proof. intros; eapply update_all_returns; eassumption. Qed.
+End SkelPH12.
+Print Assumptions C12_code_statistics_phase.
+
+(* ---- graphical_lasso._update_cluster_statistics AS TRANSLATED (Gen/G_gl_stats.v; facts: Proofs/GenEquivLW.v): mean and covariance are
+   computed from the SAME selected rows (the cluster's member points), with the bias flag of the call ---- *)
+From Ticc Require Import Gen.PySkel Gen.G_gl_stats Proofs.GenEquivLW.
+Section SkelLW12.
+  Local Open Scope string_scope.
+  Variable V : Type.
+  Variable vnone : V.
+  Variable vint : Z -> V.
+  Variable as_int : V -> option Z.
+  Variable veq : V -> V -> bool.
+  Variable getattr : V -> string -> V.
+  Variable truthy : V -> bool.
+  Variable is_none : V -> bool.
+  Variables vtrue vfalse : V.
+  Variable as_list : V -> list V.
+  Variable vglobal : string -> V.
+  Variable oracle : list (event V) -> string -> list V -> res V.
+  Let stats_events := GenEquivLW.stats_events V vint.
+  Let assert_events := GenEquivLW.assert_events V.
+  Theorem C12_code_cluster_statistics (cluster training_data biased_covariance r : V) (log log' : list (event V)) (n : Z) :
+    as_int (getattr cluster "size") = Some n -> n <> 0%Z ->
+    g_update_cluster_statistics V vint as_int getattr truthy oracle cluster training_data biased_covariance log = (Ret r, log') ->
+    exists u0 rows mean u1 rowsT cov,
+      log' = (log ++ stats_events cluster training_data biased_covariance u0 rows mean u1 rowsT cov)%list /\
+      oracle (log ++ [Ev "method:shallow_copy" [cluster]])%list f_rows [cluster; training_data] = Ret rows /\
+      oracle (log ++ firstn 6 (stats_events cluster training_data biased_covariance u0 rows mean u1 rowsT cov))%list
+             "setattr:empirical_covariance" [u1; cov] = Ret r.
+  Proof. intros; eapply gl_stats_returns; eassumption. Qed.
+  Theorem C12_code_cluster_statistics_empty (cluster training_data biased_covariance r : V) (log log' : list (event V)) :
+    as_int (getattr cluster "size") = Some 0%Z ->
+    g_update_cluster_statistics V vint as_int getattr truthy oracle cluster training_data biased_covariance log = (Ret r, log') ->
+    exists msg err u0 rows mean u1 rowsT cov,
+      log' = (log ++ assert_events msg
+                  ++ stats_events cluster training_data biased_covariance u0 rows mean u1 rowsT cov)%list /\
+      oracle log f_empty_msg [] = Ret msg /\
+      oracle (log ++ [Ev f_empty_msg []])%list "RuntimeError" [msg] = Ret err /\ truthy err = true /\
+      oracle (log ++ assert_events msg ++ [Ev "method:shallow_copy" [cluster]])%list f_rows [cluster; training_data] = Ret rows /\
+      oracle (log ++ assert_events msg
+                  ++ firstn 6 (stats_events cluster training_data biased_covariance u0 rows mean u1 rowsT cov))%list
+             "setattr:empirical_covariance" [u1; cov] = Ret r.
+  Proof. intros; eapply gl_stats_returns_empty; eassumption. Qed.
+End SkelLW12.
+Print Assumptions C12_code_cluster_statistics.
+Print Assumptions C12_code_cluster_statistics_empty.
